@@ -145,6 +145,22 @@ def edge_positions(rng, W, H, cur):
     return rng.choice(xs), rng.choice(ys)
 
 
+BPS_CHOICES = {4: [8, 10, 5, 6, 4], 3: [8, 5, 4], 2: [5, 4, 3], 1: [2]}
+
+
+def init_format(bpp, bps):
+    """rfbInitServerFormat on a little-endian host"""
+    if bpp == 1:
+        return (1, 7, 7, 3, 0, 3, 6)
+    m = (1 << bps) - 1
+    return (bpp, m, m, m, 0, bps, 2 * bps)
+
+
+def newfb_line(rng, W, H, bpp, bps):
+    pm = (1 << (8 * bpp)) - 1
+    return "newfb %d " % bps + " ".join("%x" % rng.randint(0, pm) for _ in range(W * H))
+
+
 def direct_case(rng, k):
     fmt = rng.choice(FORMATS)
     bpp = fmt[0]
@@ -159,6 +175,10 @@ def direct_case(rng, k):
         for _ in range(rng.choice([1, 2, 4])):
             px, py = edge_positions(rng, W, H, cur)
             L += ["pos %d %d" % (px, py), "show", "hide"]
+            if rng.random() < 0.15:
+                # the application switches to a framebuffer of another format (same size and pixel size): a rich
+                # form derived for the old format must not survive
+                L += [newfb_line(rng, W, H, bpp, rng.choice(BPS_CHOICES[bpp])), "pos %d %d" % (min(px, W - 1), min(py, H - 1)), "show", "hide"]
         if rng.random() < 0.3:
             L.append("getrich")
     return L
@@ -180,11 +200,11 @@ def session_case(rng, k, flavour=None):
     W, H = rng.choice([2, 3, 5, 8, 10]), rng.choice([2, 3, 4, 7])
     pm = (1 << (8 * bpp)) - 1
     fb = [[rng.randint(0, pm) for _ in range(W)] for _ in range(H)]
-    flavour = flavour or rng.choice(["soft", "soft", "mixed", "mixed", "partial", "switch", "fail", "hook", "hook"])
+    flavour = flavour or rng.choice(["soft", "soft", "mixed", "mixed", "partial", "switch", "fail", "hook", "hook", "newfb", "newfb"])
     L = ["case %d session %s" % (k, flavour), "screen %d %d %d %d %d %d %d %d %d" % ((W, H) + fmt),
          "fb " + " ".join("%x" % p for r in fb for p in r)]
     def small_cursor():
-        c = rand_cursor(rng, fmt)
+        c = rand_cursor(rng, fmt, "x" if flavour == "newfb" and rng.random() < 0.8 else None)
         return c
     cur = small_cursor()
     if rng.random() < 0.9:
@@ -193,8 +213,12 @@ def session_case(rng, k, flavour=None):
         cur = None
     ncl = rng.choice([1, 1, 2, 3])
     alive = []
+    encs_of = {}
     for i in range(ncl):
         encs = [] if flavour in ("soft", "partial") else rng.choice(ENC_SETS)
+        if flavour == "newfb":
+            encs = rng.choice([[], [], ["rich"], ["rich", "pos"], ["x"]])
+        encs_of[i] = encs
         L.append(("client %d " % i + " ".join(encs)).rstrip())
         alive.append(i)
         if rng.random() < 0.8:
@@ -234,6 +258,12 @@ def session_case(rng, k, flavour=None):
             alive.remove(i)
             if not alive:
                 break
+        elif flavour == "newfb" and rng.random() < 0.7:
+            L.append(newfb_line(rng, W, H, bpp, rng.choice(BPS_CHOICES[bpp])))
+            for j in alive:
+                if encs_of[j]:          # clients re-announce their encodings after the format change: shape sent again
+                    L.append(("setenc %d " % j + " ".join(encs_of[j])).rstrip())
+                L.append("fur %d %d 0 0 %d %d" % (j, rng.choice([0, 1]), W, H))
         elif flavour == "hook" and rng.random() < 0.6:
             cur = rand_cursor(rng, fmt, rng.choice([None, None, "alpha", "alphapm"]))
             L += cur.lines() + ["hookcur %d" % i]
@@ -415,6 +445,11 @@ def oracle_case(script, impl, crash=None):
             st.pend.rich = None if p[1:] == ["-"] else [int(t, 16) for t in p[1:]]
         elif p[0] == "alpha":
             st.pend.alpha = None if p[1] == "-" else list(bytes.fromhex(p[1]))
+        elif p[0] == "newfb":
+            st.fmt = init_format(st.fmt[0], int(p[1]))
+            v = [int(t, 16) for t in p[2:]]
+            st.fb = [v[y * st.W:(y + 1) * st.W] for y in range(st.H)]
+            st.sx, st.sy = min(st.sx, st.W - 1), min(st.sy, st.H - 1)       # rfbNewFramebuffer keeps the pointer on the screen
         elif p[0] == "defcur":
             d = DEFAULT_CUR
             st.cur = Cur(d["w"], d["h"], d["xh"], d["yh"], False, d["fore"], d["back"], list(d["src"]), list(d["mask"]), None, None)
